@@ -35,7 +35,7 @@ _CHAR_LIT = r"'((?:\\x[0-9a-fA-F]{2}|\\u\{[0-9a-fA-F]+\}|\\.|[^\\']))'"
 
 
 def _fn_body(src, name):
-    m = re.search(r"\bfn\s+%s\s*\([^)]*\)[^{]*\{" % re.escape(name), src)
+    m = re.search(r"\bfn\s+%s\s*(?:<[^>]*>)?\s*\([^)]*\)[^{]*\{" % re.escape(name), src)
     if not m:
         raise ValueError("escape.rs: fn %s not found" % name)
     i = m.end()
@@ -119,6 +119,24 @@ def gen_quote_tables():
         raise ValueError("escape.rs: ansi_c_quote octal arm changed")
     if not re.search(r"_\s*=>\s*result\.push\(c\)", body) or 'result.push_str("$\'")' not in body or not re.search(r"result\.push\('\\''\);\s*result\s*$", body.strip()):
         raise ValueError("escape.rs: ansi_c_quote frame changed")
+    # characters special by position (the model's `isSpecialByPos`) and where the rule is applied
+    flat = re.sub(r"\s+", "", _fn_body(src, "is_special_by_position"))
+    if flat != "matchc{'~'=>matches!(prev,None|Some(':'|'=')),'#'=>prev.is_none(),_=>false,}":
+        raise ValueError("escape.rs: is_special_by_position changed: %r" % flat)
+    flat = re.sub(r"\s+", "", _fn_body(src, "contains_char_special_by_position"))
+    if flat != "letmutprev=None;forcins.chars(){ifis_special_by_position(prev,c){returntrue;}prev=Some(c);}false":
+        raise ValueError("escape.rs: contains_char_special_by_position changed: %r" % flat)
+    flat = re.sub(r"\s+", "", _fn_body(src, "backslash_escape"))
+    if "ifneeds_escaping(c)||is_special_by_position(prev,c){output.push('\\\\');}output.push(c);prev=Some(c);" not in flat:
+        raise ValueError("escape.rs: backslash_escape no longer escapes characters special by position")
+    flat = re.sub(r"\s+", "", _fn_body(src, "quote"))
+    if "||s.contains(needs_escaping)||contains_char_special_by_position(s))" not in flat:
+        raise ValueError("escape.rs: quote no longer quotes text holding a character special by position")
+    # the reader: `\\0` takes at most two more octal digits inside $'…'
+    flat = re.sub(r"\s+", "", _fn_body(src, "expand_backslash_escapes"))
+    if "letmax_more=matchmode{EscapeExpansionMode::EchoBuiltin=>3,EscapeExpansionMode::AnsiCQuotes=>2,};" not in flat \
+            or "iftaken_so_far<max_more&&matches!(*c,'0'..='7')" not in flat:
+        raise ValueError("escape.rs: expand_backslash_escapes: octal digit limit after `\\0` changed")
     out = ["/-! GENERATED by tools/c13.py from brush-core/src/escape.rs — do not edit. -/",
            "namespace BrushVerif.Gen.QuoteTables", "",
            "/-- `needs_escaping` -/",
@@ -159,21 +177,8 @@ def rand_string(rng, maxlen=40):
     return "".join(rng.choice(pool) for _ in range(n))
 
 
-def low_ctl_then_octal(v):
-    """an ASCII control character printed as `\\0dd` directly followed by an octal digit"""
-    return any(ord(a) < 0x20 and a not in NAMED_CTL and b in "01234567" for a, b in zip(v, v[1:]))
-
-
 def has_ctl(v):
     return any(ord(c) < 0x20 or ord(c) == 0x7f for c in v)
-
-
-NE_DEFAULT = set("()[]{}$*?|&;<>`\\\"!^, '")
-
-
-def left_unquoted(v):
-    """`quote_if_needed` leaves v as it is"""
-    return v != "" and not has_ctl(v) and not any(c in NE_DEFAULT for c in v)
 
 
 # ------------------------------------------------------------------------------------------------
@@ -199,7 +204,9 @@ while IFS= read -r -d '' mode && IFS= read -r -d '' text; do
          if [ "${BASH_ALIASES[zzal]+x}" = x ]; then printf 'S\0%s\0' "${BASH_ALIASES[zzal]}"; else printf 'NONE\0'; fi ;;
       tr) eval "$text" >/dev/null 2>&1 </dev/null
          t=$(trap -p USR1; printf x); t=${t%x}
-         if [ -z "$t" ]; then printf 'NONE\0'; else t=${t#"trap -- '"}; t=${t%"' SIGUSR1"$'\n'}; q="'\\''"; printf 'S\0%s\0' "${t//"$q"/\'}"; fi ;;
+         if [ -z "$t" ]; then printf 'NONE\0'
+         elif [ "$t" = "trap -- \\' SIGUSR1"$'\n' ]; then printf 'S\0%s\0' "'"    # bash prints a lone quote as \'
+         else t=${t#"trap -- '"}; t=${t%"' SIGUSR1"$'\n'}; q="'\\''"; printf 'S\0%s\0' "${t//"$q"/\'}"; fi ;;
     esac
   ) 2>/dev/null
   printf '%s\0' "$tok"
@@ -409,43 +416,18 @@ def fn_inputs(ctx):
 # ------------------------------------------------------------------------------------------------
 # classification of failures of the property (brush == model): which listed defect explains it
 
-import re as _re
-_TILDE = _re.compile(r"(^|[:=])~")
-QUOTE_FORMS = {"pq", "Q", "xt", "xs", "A", "dp", "set", "dpa", "dpA", "Aa", "AA", "seta", "Qa"}
-IFNEEDED_FORMS = {"pq", "xt", "xs", "set"}
 
 
 def explain(form, attrs, vals, mode, expect, rb, rh):
     """list of clause names explaining why the re-read (rb in brush, rh in bash) differs from the original
     `expect`, or None when no listed defect explains it."""
-    clauses = []
-    if form == "A" and attrs and rb.startswith("V - ") and rh.startswith("V - "):
-        clauses.append("at_A_scalar_drops_attributes")
-        expect = expect.replace("V %s " % canon_attrs(attrs), "V - ", 1)
-        if rb == expect and rh == expect:
-            return clauses
     b_ok, h_ok = rb == expect, rh == expect
-    v = vals[0] if vals else ""
     keys = vals[0::2] if form in ("dpA", "AA") else []
-    if form in QUOTE_FORMS and not b_ok and h_ok and any(low_ctl_then_octal(x) for x in vals):
-        clauses.append("ansi_c_octal_then_digit")
-    elif keys and not b_ok and h_ok and any("]" in k for k in keys):
-        clauses.append("assoc_key_close_bracket")
-    elif keys and not b_ok and h_ok and any(k.startswith("~") and left_unquoted(k) for k in keys):
-        clauses.append("assoc_key_tilde_expands")
-    elif form in IFNEEDED_FORMS and (left_unquoted(v) or (form == "pq" and v != "" and not has_ctl(v))) and _TILDE.search(v):
-        clauses.append("tilde_left_unquoted")
-    elif form in IFNEEDED_FORMS and (left_unquoted(v) or (form == "pq" and not has_ctl(v))) and v.startswith("#") and mode == "a":
-        clauses.append("hash_left_unquoted")
-    elif form == "ex" and any(c in v for c in '"$`\\'):
-        clauses.append("export_p_unescaped")
-    elif form in ("al", "alp") and "'" in v:
-        clauses.append("alias_unescaped_single_quote")
-    elif form == "tr" and "'" in v:
-        clauses.append("trap_p_unescaped_single_quote")
-    else:
-        return None
-    return clauses
+    if keys and not b_ok and h_ok and any("]" in k for k in keys):
+        return ["assoc_key_close_bracket"]
+    if form == "tr" and vals and "'" in vals[0]:
+        return ["trap_p_unescaped_single_quote"]
+    return None
 
 
 FN_VARIANTS = ["ifneeded-single", "ifneeded-double", "ifneeded-backslash", "force-single", "force-double", "force-backslash"]
